@@ -242,6 +242,108 @@ func runC17(r *Run) {
 		bindMapByValueRule(r, idemPkg, 1)
 	})
 
+	r.rule("R14", "`safe` is RFC 9110's list: the default Next skips the middleware exactly for what fiber.IsMethodSafe calls safe (R7), and IsMethodSafe answers true only behind a comparison of the method with GET, HEAD, OPTIONS or TRACE — all four and nothing else (table agreement with RFC 9110 §9.2.1; with TRACE missing a TRACE request carrying the key is answered with the stored POST response, or occupies the key so that the POST never runs)", func() {
+		f := r.Fn("", "IsMethodSafe")
+		r.need(len(f.Params) == 1, "IsMethodSafe(m string)")
+		m := ssa.Value(f.Params[0])
+		got := map[string]bool{}
+		cut := map[edge]bool{}
+		var preds []ssa.Value
+		neq := false
+		for _, b := range f.Blocks {
+			for _, in := range b.Instrs {
+				bo, ok := in.(*ssa.BinOp)
+				if !ok || (bo.Op != token.EQL && bo.Op != token.NEQ) {
+					continue
+				}
+				var k *ssa.Const
+				if bo.X == m {
+					k = asConst(bo.Y)
+				} else if bo.Y == m {
+					k = asConst(bo.X)
+				}
+				if k == nil {
+					continue
+				}
+				str, ok := constString(k)
+				if !ok {
+					continue
+				}
+				if bo.Op == token.NEQ {
+					neq = true
+				}
+				got[str] = true
+				preds = append(preds, bo)
+			}
+		}
+		for _, br := range branchesInOne(f) {
+			if br.Info.Root == m || br.Info.Other == m {
+				if sl, ok := br.slotFor(token.EQL); ok {
+					cut[edge{br.If.Block(), sl}] = true
+				}
+			}
+		}
+		want := []string{"GET", "HEAD", "OPTIONS", "TRACE"}
+		var missing, extra []string
+		for _, w := range want {
+			if !got[w] {
+				missing = append(missing, w)
+			}
+		}
+		for _, g := range sortedKeys(got) {
+			isWanted := false
+			for _, w := range want {
+				if w == g {
+					isWanted = true
+				}
+			}
+			if !isWanted {
+				extra = append(extra, g)
+			}
+		}
+		onlyBehind := len(preds) > 0 && trueOnlyBehind(f, cut, func(v ssa.Value) bool {
+			for _, p := range preds {
+				if v == p {
+					return true
+				}
+			}
+			return false
+		})
+		r.check(len(missing) == 0 && len(extra) == 0 && !neq && onlyBehind, "IsMethodSafe:the-four-safe-methods", r.fpos(f), "true only behind m == GET / HEAD / OPTIONS / TRACE",
+			fmt.Sprintf("IsMethodSafe does not compare the method with exactly RFC 9110's safe methods (missing %v, extra %v, negated comparison %v, true only behind a comparison %v): a safe method that is not recognised is no longer skipped by the idempotency middleware's default Next — a TRACE carrying the key of a POST gets the POST's stored answer, or takes the key first so that the POST handler never runs", missing, extra, neq, onlyBehind))
+	})
+
+	r.rule("R13", "every line of a repeated header is recorded: the stored headers are taken with Bind().RespHeader into a map of value lists, and everything the binders put into such a map is appended to what the key already holds (data[k] = append(data[k], v)) — an assignment of a fresh one-element list keeps only the last of two Set-Cookie lines, the replay then carries fewer header lines than the first answer (E3 accumulate, over the binder package)", func() {
+		n := 0
+		r.P.AllFuncs("binder", func(f *ssa.Function) {
+			if strings.Contains(f.String(), "parseToMap") {
+				return // writes the caller's destination map, not the collected data
+			}
+			for _, in := range instrsWhereOne(f, func(in ssa.Instruction) bool { _, ok := in.(*ssa.MapUpdate); return ok }) {
+				mu := in.(*ssa.MapUpdate)
+				mt, ok := mu.Map.Type().Underlying().(*types.Map)
+				if !ok {
+					continue
+				}
+				if _, isSlice := mt.Elem().Underlying().(*types.Slice); !isSlice {
+					continue
+				}
+				n++
+				okApp := false
+				if c, ok := stripValue(mu.Value).(*ssa.Call); ok {
+					if bi, ok := c.Call.Value.(*ssa.Builtin); ok && bi.Name() == "append" {
+						if lk, ok := stripValue(c.Call.Args[0]).(*ssa.Lookup); ok && lk.X == mu.Map && sameExpr(lk.Index, mu.Key) {
+							okApp = true
+						}
+					}
+				}
+				r.check(okApp, short(f.String())+":collected-values:appended", r.pos(in), "the value list of the key is extended",
+					"a binder assigns a fresh value list under a key instead of extending the one it holds: of a header name that occurs twice (two Set-Cookie, two Link) only the last line survives — the idempotency middleware records its answer through Bind().RespHeader, the replay has fewer header lines than the execution returned")
+			}
+		})
+		r.atLeast("writes into collected-value maps", n, 4)
+	})
+
 	r.rule("R10", "the list of headers to keep is matched in one spelling: the names put into the keep set and the names looked up in it go through a case fold of the same kind (lower case on both sides, or the canonical MIME form on both sides) — with DisableHeaderNormalizing a response header is spelled as the handler wrote it (E5, writer and reader agree)", func() {
 		f := r.Fn(idemPkg, "New")
 		class := func(key ssa.Value) string {
